@@ -27,7 +27,7 @@ IRT = ("match", "unknown", "absent")
 SCD = ("match", "different", "absent", "nodata-then-different", "match-then-different",
        # a confirmation whose data names no request in front of / between others
        "no-irt-then-different", "no-irt-then-match-then-different", "different-then-no-irt")
-DEST = ("own", "foreign", "absent", "pattern-only", "own-plus-suffix", "own-prefix", "own-other-case", "own-with-query")
+DEST = ("own", "foreign", "absent", "pattern-only", "own-plus-suffix", "own-prefix", "own-other-case", "own-with-query", "empty")
 AUD = ("none", "one-naming", "one-foreign", "two-both-naming", "two-one-foreign", "two-foreign-first", "empty-restriction", "naming-among-several-audiences",
        # one restriction names the SP, another one lists no usable audience at all / a near miss of the entity identifier
        "two-naming+blank-audience", "two-blank-audience-first", "three-naming+whitespace-audience+naming", "two-naming+restriction-without-audience",
@@ -156,7 +156,7 @@ def run_case(case, ctx):
     d = d.set_attr(d.root, "InResponseTo", {"match": "id-req-1", "unknown": "id-never-sent", "absent": None}[case["irt"]])
     d = d.set_attr(d.root, "Destination", {"own": own_acs, "foreign": FOREIGN, "absent": None, "pattern-only": PATTERN_ONLY,
                                            "own-plus-suffix": own_acs + "/x", "own-prefix": own_acs[:-5], "own-other-case": own_acs.replace("/acs/", "/ACS/"),
-                                           "own-with-query": own_acs + "?x=1"}[case["dest"]])
+                                           "own-with-query": own_acs + "?x=1", "empty": ""}[case["dest"]])
     scd = d.find(xk.SAML, "SubjectConfirmationData")[0]
     d = d.set_attr(scd, "InResponseTo", {"match": "id-req-1", "different": "id-other-request", "absent": None,
                                          "nodata-then-different": "id-other-request", "match-then-different": "id-req-1",
@@ -214,7 +214,7 @@ def run_case(case, ctx):
     if case["dest"] in ("absent",):
         r_dest = True
     elif case["pat"]:
-        r_dest = case["dest"] != "foreign"            # everything else starts with https://sp.example.org/
+        r_dest = case["dest"] not in ("foreign", "empty")            # everything else starts with https://sp.example.org/
     else:
         r_dest = case["dest"] == "own" and bool(own_for_binding)
     r_aud = case["aud"] in ("none", "one-naming", "two-both-naming", "naming-among-several-audiences")
